@@ -196,7 +196,11 @@ def apply_all(all_changes: List[Change], recorder: ChangeRecorder):
 
     def inside_replaced(change):
         node = getattr(change, "node", None)
-        parent = getattr(node, "parent", None)
+        if isinstance(change, (Replace, Delete)):
+            parent = getattr(node, "parent", None)
+        else:
+            # e.g. the value created for an empty snapshot() which is deleted
+            parent = node
         while parent is not None:
             if id(parent) in replaced:
                 return True
